@@ -54,6 +54,10 @@ pub mod time {
         open spec fn add_spec(self, rhs: Duration) -> Instant { Instant { nanos: (self.nanos + rhs.nanos) as u128 } }
     }
     impl Add<Duration> for Instant { type Output = Instant; #[verifier::external_body] fn add(self, rhs: Duration) -> Instant { unimplemented!() } }
+    impl Duration {
+        #[verifier::external_body]
+        pub fn is_zero(&self) -> (r: bool) ensures r == (self.nanos == 0) { unimplemented!() }
+    }
     impl Instant {
         // the clock: monotone, and far from the end of the representable range (a process lifetime)
         #[verifier::external_body]
